@@ -108,10 +108,10 @@ Definition lower_write (S : senv) (x : wexpr) : list aline :=
   | WrByte o =>
       let (c0, bub) := eval_opd (env_of S) (top S) R1 o false in
       c0 ++ match bub with
-            | BuImm z => [AInstr (AYield (SLit (z mod 256)))]
-            | BuLocal _ off | BuPushed off =>
+            | BuImm ch z => [AInstr (AYield (lit_sym ch (z mod 256)))]
+            | BuLocal _ off | BuPushed off | BuPushedB off =>
                 [AInstr (ALbso R1 (SReg RFp) (SLit (- off))); AInstr (AYield (SReg R1))]
-            | BuReg r => [AInstr (ALbs R1 (SRegAddr r)); AInstr (AYield (SReg R1))]
+            | BuReg r | BuRegB r => [AInstr (ALbs R1 (SRegAddr r)); AInstr (AYield (SReg R1))]
             end
   end.
 
@@ -423,6 +423,7 @@ Fixpoint grefs_opd (o : iopd) : list gref :=
   | OGlob g => [GI g]
   | OArith _ x y => grefs_opd x ++ grefs_opd y
   | OUn _ x => grefs_opd x
+  | OTrunc x => grefs_opd x
   | _ => []
   end.
 Fixpoint grefs_b (e : bexpr) : list gref :=
